@@ -280,4 +280,21 @@ def bestLoop (dec4 : Bytes → Bool → Outcome (List (Nat × Nat))) (t : Table)
 def getBest (dec4 : Bytes → Bool → Outcome (List (Nat × Nat))) (t : Table) : Outcome Sub :=
   bestLoop dec4 t Gen.cmapxCandidates
 
+/-! ## `Font.InstallCMap` (write.go) -/
+
+/-- `rune(c)` for a `uint32` -/
+def toRune (c : Nat) : Int := if c % 4294967296 < 2147483648 then (c % 4294967296 : Nat) else (c % 4294967296 : Nat) - 4294967296
+
+/-- the `high` result of `Format12.CodeRange` (0 for the empty map; order of iteration immaterial) -/
+def codeRangeHigh12 (m : KV) : Int :=
+  match m with
+  | [] => 0
+  | k :: rest => rest.foldl (fun h x => if toRune x.1 > h then toRune x.1 else h) (toRune k.1)
+
+/-- `Font.InstallCMap(s)`: `high` = upper end of `s.CodeRange()`, `sub` = `s.Encode(0)`; both keys
+refer to the same bytes -/
+def install (high : Int) (sub : Bytes) : Table :=
+  if high > 0xFFFF then [(⟨0, 4, 0⟩, sub), (⟨3, 10, 0⟩, sub)]
+  else [(⟨0, 3, 0⟩, sub), (⟨3, 1, 0⟩, sub)]
+
 end SfntV.CmapTable
